@@ -9,6 +9,45 @@ TECH = "bounded symbolic execution of the real Go SSA (own encoder) + SMT (z3 5.
 
 # id -> (claimed?, level text, level note, design ref) ; unclaimed -> reason
 CHECKS = {
+ "C01": dict(text="The real DDSketch.Add/GetValueAtQuantile on the real sparse and paginated stores is executed symbolically for n<=3 (quick) arbitrary trackable float64 values of any sign, zero or sub-minimum magnitude and every q in [0,1]; the index mapping is any mapping satisfying the contract that C03 states (monotone int32 index, positive increasing representative value, representative of a value's bin inside the value's accuracy band). The solver proves that the answer lies in the accuracy band of the order statistic of rank floor or ceil of q*(n-1), and that q=0/q=1 land in the bins of the true minimum/maximum. Dense and other stores follow by composition with C04 (every store's observers equal the abstract map).",
+             note="Assume-guarantee: mapping through its contract with an ABSTRACT accuracy band lo(v)<=Value(Index(v))<=hi(v) (the real band v*(1-+(alpha+1e-12)) is one instance; no float multiplication needed); C03 checks the real mappings against that contract only as far as it says. Rank arithmetic is exact IEEE. Bounds: n<=3 (4 thorough), unit weights, map iteration order fixed at sketch level (all orders are C04's).",
+             ref="§6 C01"),
+ "C02": dict(text="One merge step, on real code: (i) a matrix of every (receiver, argument) pair of store kinds, each store first BUILT by the real code from enumerated index patterns at a symbolic page-aligned base with unit or symbolic weights, merged, and compared with the exact pointwise sum (argument unchanged, invariants kept, total conserved); (ii) sketch-level wiring from arbitrary valid states of small stores: both sides and the zero bucket add up, count adds up, argument unchanged; merging an empty or cleared sketch is a no-op; a mismatched mapping is refused and changes nothing. Merge trees/orders follow because pointwise addition of exact dyadic weights is associative and commutative (algebra on the specification).",
+             note="Weights dyadic, indexes mathematical integers; state sizes as listed in the evidence; the same-kind fast paths from arbitrary states are C04's/C05's harnesses.",
+             ref="§6 C02"),
+ "C06": dict(text="Sketches BUILT by the real code on every store kind (0-2 positive, 0-1 negative bins at a symbolic base index, unit or grid weights, zero weight) are encoded by the real encoder (mapping embedded, or omitted and supplied, onto an existing symbolic prefix) and decoded by the real decoder into every store kind: the solver proves prefix preserved, source content unchanged, mapping Equals, zero weight and both sides' content identical, and that decoding the same bytes into the now non-empty result doubles every weight (decode = merge).",
+             note="Byte level, real varint/varfloat code. Decoded integers are replaced by the encoded term only after the solver proves them equal under the path condition. Pairs involving the paginated store use ENUMERATED index bases (page arithmetic over a symbolic 64-bit base did not finish): those runs are interpreter-executed enumeration, not solver-decided, and are labelled so in the evidence. Symbolic weights are thorough-tier only.",
+             ref="§6 C06"),
+ "C07": dict(text="(a) Every encoding produced by the implementation for the C06 sources (both sketch variants, dense/sparse/paginated/collapsing stores, either bin layout the dense store picks) is parsed by a reference decoder written from the format documentation only into the same content, consuming every byte; (b) streams written by a reference ENCODER from the documented grammar (three layouts, strides -1/0/40, repeated blocks and indexes, three block orders) decode with the real decoder into sparse, dense and paginated stores to the documented content; (c) the plain decoder accepts exact-summary encodings and the exact decoder restores the statistics.",
+             note="The reference codec (harness/ddsketch/zz_refcodec.go) is part of the trusted base. Bounds as C06 plus 3 bins per block. The plain-decoder defect found here was repaired (known_findings.json).",
+             ref="§6 C07"),
+ "C08": dict(text="Every cut position of the encodings of C06-style sketches (both variants, several store kinds) is decoded by the real decoders: a cut inside a block must return an error, a cut at a block boundary must succeed with exactly the complete blocks (or report the missing mapping), as judged by the reference parser; any undefined flag value (symbolic byte) at any block boundary, a mapping mismatch and a missing mapping are errors; no decode can panic (all bounds obligations proven).",
+             note="Bounds: encodings of sketches with <=1 bin per side (<= ~45 bytes), all cut positions enumerated, contents symbolic. The discarded-error defect found here was repaired (known_findings.json).",
+             ref="§6 C08"),
+ "C10": dict(text="One step of every operation from a state in which the statistics are linked to the absorbed data: Add/AddWithCount (count tracks weight incl. zero weight, min/max are the true extremes over ALL float64 values, sum exact on dyadic data), MergeWith (count/sum add, extremes fold, argument unchanged), ChangeMapping (statistics rescaled, source untouched), Copy/Clear/Reweight (C14/C15/C16 steps), rejected adds leave the statistics untouched, and quantile answers equal the plain answers clamped into [min,max].",
+             note="Sum exactness only on dyadic data (Kahan compensation is exactly zero there); quality of the compensated sum on other data is outside. Encode/decode of the statistics is covered in C07(c).",
+             ref="§6 C10"),
+ "C11": dict(text="Weighted adds (weights from {2^-10,1/4,1/2,1,1.5,3,2^20}) and Reweight by {2^-10,1/4,3} on the real sketch + sparse stores with a contract mapping: for every q in [0,1] the answer lies between the reported minimum and maximum and in the accuracy band of an absorbed value whose cumulative-weight interval is within one unit of q*(W-1), including total weights below one.",
+             note="Same assume-guarantee split as C01. Bounds: n<=2 values (3 thorough). The negative-rank defect found here was repaired (known_findings.json).",
+             ref="§6 C11"),
+ "C12": dict(text="On sketches built by real adds of n<=2 arbitrary trackable values (contract mapping, real sparse stores): count = number of values, emptiness, zero count, reported extremes in the accuracy band of the true extremes in all five sign cases, quantiles monotone in q and inside the reported extremes for all q1<=q2, batch query equals single queries and fails iff one fails, ForEach yields distinct bins with positive weights summing to the count, covering every input, and stops when asked.",
+             note="GetSum's alpha-accuracy is NOT covered (needs a multiplicative band and float products). Bounds n<=2 (3 thorough).",
+             ref="§6 C12"),
+ "C13": dict(text="For ALL float64 bit patterns of value, weight (non-NaN) and quantile, on both sketch variants and the three real mapping kinds: the returned error is exactly the documented one (negative weight, too high, too low, NaN, else nil), quantile queries err iff q is not a number in [0,1] or the sketch is empty, refused calls leave every observable unchanged; constructors refuse accuracies outside (0,1) and bases <=1 and never return (nil,nil); mismatched mappings and non-positive reweight factors are refused without effect.",
+             note="Four defects found here were repaired (known_findings.json). Acceptance of in-range accuracies is checked on a concrete grid (Pow/Log are uninterpreted on symbolic arguments).",
+             ref="§6 C13"),
+ "C14": dict(text="From arbitrary valid states of every store kind and both sketch variants: every read-only entry point (count/emptiness/extremes/quantiles/ForEach/Bins/KeyAtRank/ToProto/being merge argument; compact and sortBuffer of the paginated store) leaves the represented index->weight map, the zero weight, the statistics and the invariant unchanged; Copy yields equal content and neither side is affected by a later mutation of the other (aliasing is modelled exactly by the engine's concrete heap graph).",
+             note="Purity of the binary Encode is checked in C06 (exact-IEEE weights); here weights are dyadic. Quantile reads at q in {0,1/4,1/2,1}.",
+             ref="§6 C14"),
+ "C15": dict(text="Every store kind and both sketch variants from an arbitrary valid state: Clear gives the invariant, empty content, reset flags/sentinels/statistics; the same two-step history on the cleared object and on a freshly constructed one gives the same content and observer answers; and every C04/C05 step obligation is proven from exactly the states Clear leaves (arbitrary capacity, stale cells, truncated pages), so longer histories follow by induction.",
+             note="Direct two-run comparison is two operations long; the rest is the inductive argument through C04/C05.",
+             ref="§6 C15"),
+ "C16": dict(text="Reweight on every store kind (incl. collapsing and a paginated store with buffered and paged indexes) and both sketch variants from arbitrary valid states: every bin on both sides, the zero weight and the count scale by w, exact count and sum scale, exact min/max unchanged, w=1 is a no-op, every dyadic w<=0 is refused with nothing changed.",
+             note="w from {1/4,1/2,1,2,3}: a product of two symbolic values is outside the dyadic abstraction.",
+             ref="§6 C16"),
+ "C20": dict(text="Dataset built by real Add/Merge of n<=3 (quick) arbitrary non-NaN float64 values: for every q (all bit patterns) Lower/UpperQuantile return exactly the order statistic of rank floor/ceil of fl(q*(n-1)) (oracle written without sorting), NaN for invalid q or empty data, exact Min/Max/Count; the same after additions or a merge following a query (stale sort flag); Sum exact on dyadic data.",
+             note="sort.Float64s is modelled as an insertion sort forking on comparisons. The rank is read in float64 arithmetic. The NaN-quantile panic found here was repaired.",
+             ref="§6 C20"),
  "C04": dict(text="One inductive step of every store operation from an arbitrary state satisfying the representation invariant (dense: any window in a symbolic array with stale cells beyond len; sparse: M distinct symbolic indexes; buffered-paginated: enumerated page-table layouts with symbolic buffer, page base, cells) is proven by the solver to preserve the invariant and to change the abstract index->weight map exactly as the operation's specification says, at a skolem probe index; every observer (TotalCount, IsEmpty, Min/MaxIndex, KeyAtRank at symbolic rank incl. exact cumulative boundaries and negatives, ForEach incl. early stop, Bins) is proven to return the value the specification assigns to that map. By induction this covers operation histories of any length whose states fit the stated size bounds.",
              note="Weights are dyadic fixed point (multiples of 2^-4, <= 2^20 units) and indexes are mathematical integers with int32 range: exactness/no-wrap is enforced by bound tracking (|m| < 2^53). Trusted: the invariants are inductive only as far as the step obligations show; go/ssa; this engine; z3/cvc5. Bounds: dense window arrays of 0/1/4 symbolic cells plus an enumerated 66-cell layout, new index within 12 of the window; sparse M<=3 with all iteration orders; paginated layouts as listed in the evidence. Encode/Decode and protobuf steps are covered under C06/C09.",
              ref="§6 C04"),
